@@ -15,6 +15,7 @@
 #include <dispenso/detail/op_result.h>
 #include <dispenso/detail/per_thread_info.h>
 #include <dispenso/detail/result_of.h>
+#include <dispenso/detail/verif_hooks.h>
 #include <dispenso/task_set.h>
 #include <dispenso/tsan_annotations.h>
 
@@ -47,12 +48,14 @@ class LimitGatedScheduler {
 
     template <typename F>
     void schedule(F&& fPipe) {
+      DISPENSO_VERIF_POINT("pipe.sched.out.inc", this);
       outstanding_.fetch_add(1, std::memory_order_acq_rel);
 
       // RAII guard ensures outstanding_ is decremented even if an exception propagates.
       // Without this, wait() would hang spinning on outstanding_ reaching zero.
       struct OutstandingGuard {
         DISPENSO_INLINE ~OutstandingGuard() {
+          DISPENSO_VERIF_POINT("pipe.task.out.dec", &outstanding_);
           outstanding_.fetch_sub(1, std::memory_order_acq_rel);
         }
         std::atomic<size_t>& outstanding_;
@@ -61,6 +64,7 @@ class LimitGatedScheduler {
       if (unlimited_) {
         tasks_.schedule([this, fPipe = std::move(fPipe)]() mutable {
           OutstandingGuard oGuard{outstanding_};
+          DISPENSO_VERIF_POINT("pipe.utask.hasException", this);
           if (!tasks_.hasException()) {
             fPipe([]() {});
           }
@@ -68,6 +72,7 @@ class LimitGatedScheduler {
         return;
       }
 
+      DISPENSO_VERIF_POINT("pipe.sched.enqueue", this);
       DISPENSO_TSAN_ANNOTATE_IGNORE_WRITES_BEGIN();
       queue_.enqueue([this, fPipe = std::move(fPipe)]() mutable {
         OutstandingGuard oGuard{outstanding_};
@@ -78,6 +83,7 @@ class LimitGatedScheduler {
         struct ResourceGuard {
           DISPENSO_INLINE ~ResourceGuard() {
             if (armed_) {
+              DISPENSO_VERIF_POINT("pipe.task.res.add", &resources_);
               resources_.fetch_add(1, std::memory_order_acq_rel);
             }
           }
@@ -95,6 +101,7 @@ class LimitGatedScheduler {
           fPipe([this, &rGuard]() {
             rGuard.disarm();
             OnceFunction func;
+            DISPENSO_VERIF_POINT("pipe.cb.try_dequeue", this);
             DISPENSO_TSAN_ANNOTATE_IGNORE_WRITES_BEGIN();
             bool deqd = queue_.try_dequeue(func);
             DISPENSO_TSAN_ANNOTATE_IGNORE_WRITES_END();
@@ -114,6 +121,7 @@ class LimitGatedScheduler {
                 tasks_.schedule(std::move(func));
               }
             } else {
+              DISPENSO_VERIF_POINT("pipe.cb.res.add", this);
               resources_.fetch_add(1, std::memory_order_acq_rel);
             }
           });
@@ -125,8 +133,10 @@ class LimitGatedScheduler {
       });
       DISPENSO_TSAN_ANNOTATE_IGNORE_WRITES_END();
 
+      DISPENSO_VERIF_POINT("pipe.sched.res.sub", this);
       while (resources_.fetch_sub(1, std::memory_order_acq_rel) > 0) {
         OnceFunction func;
+        DISPENSO_VERIF_POINT("pipe.sched.try_dequeue", this);
         DISPENSO_TSAN_ANNOTATE_IGNORE_WRITES_BEGIN();
         bool deqd = queue_.try_dequeue(func);
         DISPENSO_TSAN_ANNOTATE_IGNORE_WRITES_END();
@@ -135,7 +145,9 @@ class LimitGatedScheduler {
         } else {
           break;
         }
+        DISPENSO_VERIF_POINT("pipe.sched.res.sub", this);
       }
+      DISPENSO_VERIF_POINT("pipe.sched.res.add", this);
       resources_.fetch_add(1, std::memory_order_acq_rel);
     }
 
@@ -148,17 +160,23 @@ class LimitGatedScheduler {
         // this drain starts, enqueuing new items into our local queue. Without
         // the outstanding_ check, those late-arriving items could be orphaned
         // if schedule()'s try_dequeue spuriously misses them.
+        DISPENSO_VERIF_POINT("pipe.wait.out.load", this);
         while (outstanding_.load(std::memory_order_acquire)) {
+          DISPENSO_VERIF_POINT("pipe.wait.hasException", this);
           if (tasks_.hasException()) {
             // Drain remaining queued items without executing them.
             OnceFunction discard;
+            DISPENSO_VERIF_POINT("pipe.wait.discard.try_dequeue", this);
             while (queue_.try_dequeue(discard)) {
+              DISPENSO_VERIF_POINT("pipe.wait.discard.out.dec", this);
               outstanding_.fetch_sub(1, std::memory_order_acq_rel);
               discard.cleanupNotRun();
+              DISPENSO_VERIF_POINT("pipe.wait.discard.try_dequeue", this);
             }
             break;
           }
           OnceFunction func;
+          DISPENSO_VERIF_POINT("pipe.wait.try_dequeue", this);
           DISPENSO_TSAN_ANNOTATE_IGNORE_WRITES_BEGIN();
           bool deqd = queue_.try_dequeue(func);
           DISPENSO_TSAN_ANNOTATE_IGNORE_WRITES_END();
@@ -166,9 +184,13 @@ class LimitGatedScheduler {
             // Spin until a resource slot is available. Check for exceptions
             // each iteration to avoid deadlocking when all pool threads have
             // finished and no one will release a resource.
+            DISPENSO_VERIF_POINT("pipe.wait.res.sub", this);
             while (resources_.fetch_sub(1, std::memory_order_acq_rel) <= 0) {
+              DISPENSO_VERIF_POINT("pipe.wait.res.add", this);
               resources_.fetch_add(1, std::memory_order_acq_rel);
+              DISPENSO_VERIF_POINT("pipe.wait.hasException2", this);
               if (tasks_.hasException()) {
+                DISPENSO_VERIF_POINT("pipe.wait.out.dec2", this);
                 outstanding_.fetch_sub(1, std::memory_order_acq_rel);
                 func.cleanupNotRun();
                 goto next_item;
@@ -176,12 +198,14 @@ class LimitGatedScheduler {
               if (!tasks_.tryExecuteNext()) {
                 std::this_thread::yield();
               }
+              DISPENSO_VERIF_POINT("pipe.wait.res.sub", this);
             }
             tasks_.schedule(std::move(func));
           next_item:;
           } else if (!tasks_.tryExecuteNext()) {
             std::this_thread::yield();
           }
+          DISPENSO_VERIF_POINT("pipe.wait.out.load", this);
         }
         return;
       }
@@ -192,30 +216,37 @@ class LimitGatedScheduler {
       // enqueue: the callback sees an empty queue and releases the resource
       // instead of chaining, leaving the item orphaned in the queue.
       // Re-checking on every iteration ensures we eventually dispatch it.
+      DISPENSO_VERIF_POINT("pipe.uwait.out.load", this);
       while (outstanding_.load(std::memory_order_acquire)) {
         // For the unlimited path, items are scheduled directly to CTS (not
         // queued locally). When an exception occurs, remaining items are
         // already in CTS's pool queue wrapped by packageTask — CTS::wait()
         // will drain them. Break out here to avoid spinning.
+        DISPENSO_VERIF_POINT("pipe.uwait.hasException", this);
         if (tasks_.hasException()) {
           break;
         }
         OnceFunction func;
+        DISPENSO_VERIF_POINT("pipe.uwait.try_dequeue", this);
         DISPENSO_TSAN_ANNOTATE_IGNORE_WRITES_BEGIN();
         bool deqd = queue_.try_dequeue(func);
         DISPENSO_TSAN_ANNOTATE_IGNORE_WRITES_END();
         if (deqd) {
           // Wait for resource to become available
+          DISPENSO_VERIF_POINT("pipe.uwait.res.sub", this);
           while (resources_.fetch_sub(1, std::memory_order_acq_rel) <= 0) {
+            DISPENSO_VERIF_POINT("pipe.uwait.res.add", this);
             resources_.fetch_add(1, std::memory_order_acq_rel);
             if (!tasks_.tryExecuteNext()) {
               std::this_thread::yield();
             }
+            DISPENSO_VERIF_POINT("pipe.uwait.res.sub", this);
           }
           tasks_.schedule(std::move(func));
         } else if (!tasks_.tryExecuteNext()) {
           std::this_thread::yield();
         }
+        DISPENSO_VERIF_POINT("pipe.uwait.out.load", this);
       }
     }
 
@@ -388,6 +419,7 @@ class Pipe<StageClass::kGenerator, CurStage, PipeNext> {
         // completion_->wait(0) because the count is never decremented.
         struct CompletionGuard {
           DISPENSO_INLINE ~CompletionGuard() {
+            DISPENSO_VERIF_POINT("pipe.gen.completion.dec", completion);
             if (completion->intrusiveStatus().fetch_sub(1, std::memory_order_acq_rel) == 1) {
               completion->notify(0);
             }
@@ -396,12 +428,14 @@ class Pipe<StageClass::kGenerator, CurStage, PipeNext> {
         };
         CompletionGuard cGuard{completion_.get()};
 
+        DISPENSO_VERIF_POINT("pipe.gen.hasException", this);
         while (!tasks_.hasException()) {
           auto op = stage_();
           if (!op) {
             break;
           }
           pipeNext_.execute(std::move(op.value()));
+          DISPENSO_VERIF_POINT("pipe.gen.hasException", this);
         }
       });
     }
@@ -430,7 +464,9 @@ class Pipe<StageClass::kSingleStage, CurStage, SinkPipe> {
     size_t numThreads = std::min(tasks_.numPoolThreads(), StageLimits<CurStage>::limit(stage_));
     for (size_t i = 0; i < numThreads; ++i) {
       tasks_.schedule([this]() {
+        DISPENSO_VERIF_POINT("pipe.single.hasException", this);
         while (!tasks_.hasException() && stage_()) {
+          DISPENSO_VERIF_POINT("pipe.single.hasException", this);
         }
       });
     }
